@@ -288,6 +288,9 @@ BYTE_DOCS = {
     "bom-crlf": "\ufeffText   with BOM\r\n\r\nand CRLF.\r\n".encode(),
     "non-ascii": "Caf\u00e9   na\u00efve \u65e5\u672c\u8a9e  \u201cquoted\u201d\u00a0nbsp\n\nsecond\u2028line\n".encode(),
     "no-final-newline": b"text   without final newline",
+    # characters that only str.splitlines() takes for line ends, where they are kept verbatim (code, frontmatter)
+    "exotic-separators-in-code": "para\n\n```\ncode\x0bline\u2028x\x1cy\x85z\x1dw\x1ev\u2029u\n```\n".encode(),
+    "exotic-separators-in-frontmatter": "---\na: b\u2028c\x0bd\n---\n\ntext   here\n".encode(),
 }
 
 
@@ -302,7 +305,7 @@ def byte_level(ctx: Ctx) -> None:
     picks = [(n, m) for n in names for m in modes]
     if ctx.tier != "thorough":
         rng.shuffle(picks)
-        picks = picks[: 14] + [(n, ["--plaintext"]) for n in ("crlf", "bom")]
+        picks = picks[: 14] + [(n, ["--plaintext"]) for n in ("crlf", "bom")] + [(n, []) for n in ("exotic-separators-in-code", "exotic-separators-in-frontmatter")]
     for name, mode in picks:
         data = BYTE_DOCS[name]
         d = Path(tempfile.mkdtemp(prefix="c15b_", dir="/tmp"))
